@@ -343,6 +343,69 @@ def gen_mismatch(rng, enc):
     return {"t": "mismatch", "reply": rep, "bad": bad, "other": other}
 
 
+# ---- replies as OTHER servers spell them (RFC 959 4.2: "code-" first line, any body lines, "code " last line) ----
+FOREIGN_RAW = ["Welcome to the server", "", "-- notice --", "x", "HTTP/1.1 400 Bad Request", "Quota: 5 MB", "2 users online", "22 files", "1-2", "7x",
+               "1 250 x", "a", "ab", "-", "total 12", "é", "12a4 x", "2x0 ok", "x 250 done", "25 0", "Type=dir; name"]
+
+
+def _digits3(s):
+    """what `Code(s[:3]).isdigit()` says: the first (at most three) characters are all digits and there is at least one"""
+    h = s[:3]
+    return bool(h) and all(unicodedata.digit(c, None) is not None for c in h)
+
+
+def gen_foreign(rng, enc, code=None):
+    code = code or rng.choice(["220", "230", "226", "426", "250", "211", "214", "257", "%03d" % rng.randrange(1000)])
+    body = []
+    for _ in range(rng.choice([0, 1, 1, 2, 3, 5])):
+        style = rng.choice(["hyph", "hyph", "raw", "raw", "indent"])
+        if style == "raw":
+            t = rng.choice(FOREIGN_RAW)
+        else:
+            t = gen_line(rng, code, enc, ["empty", "word", "digits", "look-same", "look-other", "dash", "spaces", "nonascii", "short"])[1].rstrip()
+        if enc == "latin1":
+            t = "".join(ch for ch in t if ord(ch) < 256)
+        body.append([style, t])
+    first = rng.choice(["", "first", "-", " x", code + " x", "Welcome"])
+    last = rng.choice(["", "done", "end", "-", code + "-x", '"/a b" created'])
+    return {"t": "foreign", "code": code, "first": first, "body": body, "last": last}
+
+
+def foreign_wire(it):
+    code = it["code"]
+    out = [code + "-" + it["first"]]
+    for style, t in it["body"]:
+        out.append(code + "-" + t if style == "hyph" else " " + t if style == "indent" else t)
+    out.append(code + " " + it["last"])
+    return out
+
+
+def foreign_expected(it):
+    """what the reply says: the code, and per line the text after the code (first / "code-" / last lines) or the whole
+    line (body lines that do not repeat the code); trailing blanks are outside the property (C06-F1)"""
+    out = ["-" + it["first"]]
+    for style, t in it["body"]:
+        out.append("-" + t if style == "hyph" else (" " + t).rstrip() if style == "indent" else t)
+    out.append((" " + it["last"]).rstrip())
+    return out
+
+
+def foreign_in_domain(it, enc):
+    code = it["code"]
+    if len(code) != 3 or not code.isascii() or not code.isdigit():
+        return False
+    texts = [it["first"], it["last"]] + [t for _, t in it["body"]]
+    if any("\n" in t or "\r" in t or t != t.rstrip() for t in texts):
+        return False
+    try:
+        for t in texts:
+            t.encode(ENC_PY[enc])
+    except UnicodeEncodeError:
+        return False
+    # a raw body line that starts with (up to) three digits is a line that "carries a code": outside this family
+    return not any(style == "raw" and _digits3(t) for style, t in it["body"])
+
+
 def segmentations(rng, data, k):
     """k ways to cut `data`; the first is always the whole string"""
     out = [[data]]
@@ -417,6 +480,18 @@ def check_stream(items, enc, results, leftover):
                 fails.append(f)
                 if f[1] != SIG_TRAILING_WS:
                     return fails
+        elif it["t"] == "foreign":
+            if not foreign_in_domain(it, enc):
+                return fails
+            got = results[k]
+            want = foreign_expected(it)
+            if got[0] != "OK":
+                fails.append(("a multi-line reply spelled as other servers spell it (%r) was not decoded: %r" % (foreign_wire(it), got), "C06:foreign-reply-rejected"))
+                return fails
+            if got[1] != it["code"] or list(got[2]) != want:
+                fails.append(("a multi-line reply spelled as other servers spell it (%r) decoded as %r %r, it says %r %r" % (
+                    foreign_wire(it), got[1], list(got[2]), it["code"], want), "C06:foreign-reply-misread"))
+                return fails
         elif it["t"] == "mismatch":
             rep = it["reply"]
             got = results[k]
@@ -481,6 +556,11 @@ def _stream_cases(ctx, rng, n_streams):
                             {"t": "reply", "code": "226", "lines": ["next"], "is_str": True, "list": False, "classes": ["word"]}]))
         fixed.append((enc, [{"t": "reply", "code": "250", "lines": ["start", "Type=dir; x ", "end"], "is_str": False, "list": True,
                              "classes": ["trailing-ws"]}]))
+        nxt = {"t": "reply", "code": "226", "lines": ["next"], "is_str": True, "list": False, "classes": ["word"]}
+        for body in ([["hyph", "a"]], [["hyph", "a"], ["hyph", "b"]], [["raw", "Welcome"]], [["raw", "22 files"]], [["raw", "2 users online"]], [["raw", ""]],
+                     [["raw", "x"], ["hyph", "y"], ["indent", "z"]], [["indent", "250 x"]], [["hyph", "250 x"]], [["raw", "1-2"], ["raw", "HTTP/1.1 400 Bad Request"]], []):
+            fixed.append((enc, [{"t": "foreign", "code": "250", "first": "first", "body": body, "last": "done"}, nxt]))
+            fixed.append((enc, [{"t": "foreign", "code": "426", "first": "", "body": body, "last": ""}, {"t": "foreign", "code": "226", "first": "x", "body": body, "last": "ok"}, nxt]))
         for raw in RAW:
             fixed.append((enc, [{"t": "raw", "hex": raw.hex()},
                                 {"t": "reply", "code": "220", "lines": ["next"], "is_str": True, "list": False, "classes": ["word"]}]))
@@ -490,7 +570,11 @@ def _stream_cases(ctx, rng, n_streams):
         enc = "utf8" if rng.random() < 0.6 else "latin1"
         r = rng.random()
         items = []
-        if r < 0.45:
+        if r < 0.12:
+            # replies as other servers spell them, between replies of this server
+            for _ in range(rng.choice([1, 2, 3])):
+                items.append(gen_foreign(rng, enc) if rng.random() < 0.7 else gen_reply(rng, enc, force_domain=True, small=True))
+        elif r < 0.45:
             # in-domain sequences (desynchronisation would show on the following reply)
             for _ in range(rng.choice([1, 1, 2, 3, 4])):
                 items.append(gen_reply(rng, enc, force_domain=True))
@@ -623,6 +707,15 @@ async def _run_async(ctx, res, oracle_only):
                 data += b"".join(chunks)
             if it["t"] == "raw":
                 data += bytes.fromhex(it["hex"])
+            if it["t"] == "foreign":
+                res.cases += 1
+                res.count("foreign reply " + ("in-domain" if foreign_in_domain(it, enc) else "excluded-region"))
+                for style, _ in it["body"]:
+                    res.count("foreign body line " + style)
+                try:
+                    data += b"".join((l + "\r\n").encode(ENC_PY[enc]) for l in foreign_wire(it))
+                except UnicodeEncodeError:
+                    ok_stream = False
         n = len(items) + 1
         outcomes = []
         for si, segs in enumerate(segmentations(rng, data, nseg)):
@@ -1023,6 +1116,8 @@ async def _replay_async(inp, verbose=True):
                 data += b"".join(chunks)
             if it["t"] == "raw":
                 data += bytes.fromhex(it["hex"])
+            if it["t"] == "foreign":
+                data += b"".join((l + "\r\n").encode(ENC_PY[enc]) for l in foreign_wire(it))
         segs = [bytes.fromhex(h) for h in inp["segs"]]
         if b"".join(segs) != data:
             print("note: stored segmentation does not rebuild the stream the current code writes; using the current bytes")
